@@ -13,6 +13,7 @@ from hypothesis import strategies as st
 
 from refs import op2enc, op4enc
 from vlib import env, util
+from vlib import defaults
 from vlib.core import Part
 
 PROPERTY = "C11"
@@ -1192,4 +1193,7 @@ PARTS = [
          fuzz=dict(modules=["pyyeti.nastran.op4"], time=30, time_thorough=400), tmax_thorough=600),
     Part("fuzz_op2", oracle_op2, strategy=op2_files, quick=(2, 400), thorough=(4, 20000),
          fuzz=dict(modules=["pyyeti.nastran.op2"], time=30, time_thorough=400), tmax_thorough=600),
+    # documented defaults: leaving a keyword out = passing its documented value (vlib/defaults.py)
+    Part("defaults", defaults.make_oracle("C11"), enum=defaults.make_enum(), quick=(1, None), thorough=(1, None),
+         exhaustive=True),
 ]
